@@ -1,8 +1,17 @@
 //! C20 correspondence: the IR evaluator vs the JIT on the same lowered IR, and
 //! both against the Lean model's generated arms.
 //!
+//! Classes: single-instruction programs and compound expressions (scalar
+//! arms), `mem` (the evaluator's Memory driven directly: c20/mem.rs), `flow`
+//! (matches over enums, calls, perturbed IR: c20/flow.rs).
+//!
 //! usage: c20 run <seed> <quick|thorough>
 //!        c20 replay <json>
+
+#[path = "../c20/mem.rs"]
+mod mem;
+#[path = "../c20/flow.rs"]
+mod flow;
 
 use roto::verif_hooks::core::lower_to_mir;
 use roto::{FileTree, Runtime};
@@ -442,6 +451,25 @@ fn main() {
             let seed_s = seed.to_string();
             let t = std::time::Duration::from_secs(900);
             use rotov_harness::worker::{Ended, run_batches};
+            // class `mem`: boundary tables first, then frame tables, then random histories
+            run_batches(&["mem", &seed_s, tier], 1, 1, t, &mut rep,
+                |rep: &mut Report, _idx: u64, how: &Ended| {
+                    rep.violation(
+                        "process died while driving the evaluator's Memory (an access neither completed nor panicked)",
+                        "mem crash",
+                        json!({"ended": format!("{how:?}"), "seed": seed}),
+                    );
+                });
+            // class `flow`: every batch is a fresh process (fresh hash seeds for the match tables)
+            run_batches(&["flow", &seed_s, tier], flow::total(thorough), 28, t, &mut rep,
+                |rep: &mut Report, idx: u64, how: &Ended| {
+                    let case = flow::case_for(seed, idx, thorough);
+                    rep.violation(
+                        "process died (trap/abort) in compiled code for a program the evaluator ran to completion on the same input, or in the evaluator itself",
+                        "flow crash",
+                        json!({"src": case.src, "seed": seed, "index": idx, "ended": format!("{how:?}")}),
+                    );
+                });
             run_batches(&["single", &seed_s, tier], all_tys().len() as u64 + 1, 1, t, &mut rep,
                 |rep: &mut Report, idx: u64, how: &Ended| {
                     rep.violation(
@@ -477,11 +505,60 @@ fn main() {
                     let n: u64 = args[5].parse().unwrap();
                     compound(&mut rep, seed, n, from);
                 }
+                "mem" => {
+                    let thorough = args[4] == "thorough";
+                    println!("START 0");
+                    // the Lean side is optional: without a driver the shadow oracle still decides
+                    let mut drv = Driver::spawn().ok().filter(|_| true);
+                    if let Some(d) = drv.as_mut() {
+                        if d.ask("c20 mem a1") != "ptr0" {
+                            rep.mismatch("Lean driver does not answer `c20 mem` requests (stale or failed build)", json!({}));
+                            drv = None;
+                        }
+                    }
+                    mem::run(&mut rep, &mut drv, seed, thorough);
+                }
+                "flow" => {
+                    let thorough = args[4] == "thorough";
+                    let from: u64 = args[5].parse().unwrap();
+                    let n: u64 = args[6].parse().unwrap();
+                    flow::run(&mut rep, seed, thorough, from, n);
+                }
                 _ => std::process::exit(64),
             }
         }
         Some("replay") => {
             let v: serde_json::Value = serde_json::from_str(&args[2]).expect("replay json");
+            match v["kind"].as_str() {
+                Some("mem") => {
+                    mem::replay(&mut rep, v["ops"].as_str().expect("ops"));
+                    rep.emit();
+                    return;
+                }
+                Some("flow") => {
+                    let inp: Vec<u64> = v["args"].as_array().unwrap().iter().map(|x| x.as_u64().unwrap()).collect();
+                    let case = flow::FlowCase {
+                        kind: "replay",
+                        src: v["src"].as_str().unwrap().to_string(),
+                        ty: parse_ty(v["ty"].as_str().unwrap()),
+                        arity: inp.len(),
+                        ret: parse_ty(v["ret"].as_str().unwrap()),
+                        inputs: vec![inp.clone()],
+                    };
+                    let pt = flow::parse_perturb(v["perturb"].as_str().unwrap_or("none"));
+                    // hash order varies per compilation: try several
+                    for _ in 0..20 {
+                        flow::check_case(&mut rep, &case, json!("replay"), Some((&inp, &pt)), None);
+                        if !rep.impl_violations.is_empty() {
+                            break;
+                        }
+                    }
+                    println!("violations: {}", rep.impl_violations.len());
+                    rep.emit();
+                    return;
+                }
+                _ => {}
+            }
             let src = v["src"].as_str().unwrap();
             let ty = parse_ty(v["ty"].as_str().unwrap());
             let ret = parse_ty(v["ret"].as_str().unwrap());
